@@ -12,6 +12,8 @@ pub struct PreProcessor<T: TokenStream> {
     token_stream: T,
     macros: HashSet<EcoString>,
     error: Option<EcoString>,
+    /// conditionals of the enabled text that have not seen their #endif yet
+    open_conditionals: usize,
 }
 
 impl<T: TokenStream> TokenStream for PreProcessor<T> {
@@ -34,6 +36,10 @@ impl<T: TokenStream> TokenStream for PreProcessor<T> {
             self.token_stream.take_error()
         }
     }
+
+    fn take_pending_error(&mut self) -> Option<EcoString> {
+        self.error.take()
+    }
 }
 
 impl<T: TokenStream> PreProcessor<T> {
@@ -42,6 +48,7 @@ impl<T: TokenStream> PreProcessor<T> {
             token_stream,
             macros: HashSet::new(),
             error: None,
+            open_conditionals: 0,
         }
     }
 
@@ -60,6 +67,12 @@ impl<T: TokenStream> PreProcessor<T> {
             T![#else] => self.process_else(),
             T![#endif] => self.process_endif(),
             T![#define] => self.process_define(),
+            TokenKind::Eof => {
+                if self.open_conditionals > 0 && self.error.is_none() {
+                    self.error = Some("reached EOF without matching #endif".into());
+                }
+                TokenKind::Eof
+            }
             kind => kind,
         }
     }
@@ -76,10 +89,14 @@ impl<T: TokenStream> PreProcessor<T> {
                 let macro_name = self.token_stream.text(start..end);
                 let macro_defined = self.macros.contains(macro_name);
 
+                // the conditional stays open unless its whole disabled body was skipped up to #endif
+                self.open_conditionals += 1;
                 if let (IfKind::Defined, false) | (IfKind::NotDefined, true) =
                     (if_kind, macro_defined)
                 {
-                    self.eat_until_else_or_endif();
+                    if self.eat_until_else_or_endif() == T![#endif] {
+                        self.open_conditionals -= 1;
+                    }
                 }
                 TokenKind::PreProcessor
             }
@@ -91,11 +108,14 @@ impl<T: TokenStream> PreProcessor<T> {
     }
 
     fn process_else(&mut self) -> TokenKind {
-        self.eat_until_else_or_endif();
+        if self.eat_until_else_or_endif() == T![#endif] {
+            self.open_conditionals = self.open_conditionals.saturating_sub(1);
+        }
         TokenKind::PreProcessor
     }
 
     fn process_endif(&mut self) -> TokenKind {
+        self.open_conditionals = self.open_conditionals.saturating_sub(1);
         TokenKind::PreProcessor
     }
 
@@ -121,7 +141,8 @@ impl<T: TokenStream> PreProcessor<T> {
         }
     }
 
-    fn eat_until_else_or_endif(&mut self) {
+    /// Skips a disabled region; returns the token that ended it (#else, #endif or Eof).
+    fn eat_until_else_or_endif(&mut self) -> TokenKind {
         let mut depth = 1;
         loop {
             match self.token_stream.eat() {
@@ -131,12 +152,12 @@ impl<T: TokenStream> PreProcessor<T> {
                 T![#endif] if depth >= 2 => {
                     depth -= 1;
                 }
-                T![#else] | T![#endif] if depth == 1 => {
-                    break;
+                kind @ (T![#else] | T![#endif]) if depth == 1 => {
+                    return kind;
                 }
                 TokenKind::Eof => {
                     self.error("reached EOF without matching #endif");
-                    break;
+                    return TokenKind::Eof;
                 }
                 _ => {}
             }
